@@ -40,9 +40,20 @@ TF = "rope.refactor.occurrences._TextualFinder"
 
 def _commutative_norm(node: ast.AST) -> str:
     """dump with operands of and/or/==/is and isinstance tuples sorted"""
+    def conj(t) -> list:
+        return [y for v in t.values for y in conj(v)] if isinstance(t, ast.BoolOp) and isinstance(t.op, ast.And) else [t]
+
     def rec(n) -> str:
+        if isinstance(n, ast.If) and not n.orelse:
+            # `if a: if b: X` is `if a and b: X`: collect the whole chain of else-less ifs into one conjunction
+            tests, body = conj(n.test), n.body
+            while len(body) == 1 and isinstance(body[0], ast.If) and not body[0].orelse:
+                tests += conj(body[0].test)
+                body = body[0].body
+            return f"If(And({','.join(sorted(rec(t) for t in tests))});[{','.join(rec(x) for x in body)}])"
         if isinstance(n, ast.BoolOp):
-            return f"{type(n.op).__name__}({','.join(sorted(rec(v) for v in n.values))})"
+            vals = conj(n) if isinstance(n.op, ast.And) else n.values
+            return f"{type(n.op).__name__}({','.join(sorted(rec(v) for v in vals))})"
         if isinstance(n, ast.Compare) and len(n.ops) == 1 and isinstance(n.ops[0], (ast.Eq, ast.Is, ast.NotEq, ast.IsNot)):
             return f"{type(n.ops[0]).__name__}({','.join(sorted([rec(n.left), rec(n.comparators[0])]))})"
         if isinstance(n, ast.Tuple):
@@ -91,6 +102,36 @@ def check(ctx, res) -> None:
     region_interval_rule(ctx, res, "R02.12")
 
 
+def _first_verdict_helper(h) -> bool:
+    """does the method return only (a) the result of calling an element of self.filters, on paths where that result was
+    tested to be not None, or (b) a falsy constant?"""
+    cfg = CFG(h.node)
+    verdicts = set()
+    for lp in walk_local(h.node):
+        if isinstance(lp, ast.For) and isinstance(lp.target, ast.Name) and any(is_self_attr(x, "filters") for x in ast.walk(lp.iter)):
+            for a in walk_local(lp):
+                if isinstance(a, ast.Assign) and isinstance(a.targets[0], ast.Name) and isinstance(a.value, ast.Call) \
+                        and isinstance(a.value.func, ast.Name) and a.value.func.id == lp.target.id:
+                    verdicts.add(a.targets[0].id)
+    if not verdicts:
+        return False
+    rets = [n for n in cfg.nodes if n.kind == "stmt" and isinstance(n.ast, ast.Return)]
+    if not rets:
+        return False
+    for n in rets:
+        v = n.ast.value
+        if v is None or (isinstance(v, ast.Constant) and not v.value):
+            continue
+        if isinstance(v, ast.Name) and v.id in verdicts:
+            gs = cfg.guards(n.id)
+            not_none = any(isinstance(t, ast.Compare) and isinstance(t.left, ast.Name) and t.left.id == v.id and
+                           ((isinstance(t.ops[0], ast.IsNot) and pol) or (isinstance(t.ops[0], ast.Is) and not pol)) for t, pol in gs)
+            if not_none:
+                continue
+        return False
+    return True
+
+
 def _check_main(ctx, res) -> None:
     idx = ctx.idx
     # ---- R02.1 symmetry
@@ -100,7 +141,8 @@ def _check_main(ctx, res) -> None:
         raise AnalysisError("anchor=same_pyname(a, b) is no longer binary")
     import copy
 
-    body = [s for s in sp.node.body if not (isinstance(s, ast.Expr) and isinstance(s.value, ast.Constant))]
+    from .common import inline_single_assignments
+    body = [s for s in inline_single_assignments(sp.node) if not (isinstance(s, ast.Expr) and isinstance(s.value, ast.Constant))]
     orig = [_commutative_norm(s) for s in body]
     swapped = [_commutative_norm(_Swap(ps[0], ps[1]).visit(copy.deepcopy(s))) for s in body]
     # statement order of independent early-return tests does not matter: compare as multisets per prefix of tests,
@@ -193,6 +235,14 @@ def _check_main(ctx, res) -> None:
             ok = any(pol and isinstance(t, ast.Name) and t.id in verdicts for t, pol in gs) and \
                 any(not pol and isinstance(t, ast.Compare) and isinstance(t.ops[0], ast.Is) and isinstance(t.left, ast.Name) and t.left.id in verdicts
                     for t, pol in gs)
+            if not ok:
+                # the filter loop may live in a helper: the yield is then guarded by a truthy call of a method that returns
+                # nothing but a filter's non-None verdict (or a falsy constant)
+                for t, pol in gs:
+                    if pol and isinstance(t, ast.Call) and is_self_attr(t.func) and fo.cls is not None:
+                        h = idx.find_method(fo.cls.qualname, t.func.attr)
+                        if h is not None and _first_verdict_helper(h):
+                            ok = True
             res.add("R02.3", "find_occurrences|yield", ok, f"{fo.unit.rel}:{n.lineno}",
                     "an occurrence is yielded only when a filter returned a truthy, non-None result" if ok else
                     "an occurrence can be yielded without a filter having accepted it")
